@@ -45,7 +45,12 @@ RULESETS = (
     dict(boundary={"X": "periodic", "Y": "extend"}, fill_value=None),
     dict(boundary="fill", fill_value=0.0),
     dict(boundary={"X": "fill", "Y": "fill"}, fill_value={"X": 0.0, "Y": 2.0}),
+    # partial mappings: the axis they do not name keeps the Grid-level setting (fill with 9)
+    dict(boundary={"X": "extend"}, fill_value=None),
+    dict(boundary="fill", fill_value={"Y": 1.5}),
+    dict(boundary={"Y": "periodic"}, fill_value={"X": -2.0}),
 )
+GRID_RULE = ("fill", 9.0)
 ROUTES = ("function", "method", "decorator", "decorator-call-overrides", "annotated")
 _SIGS = None
 
@@ -96,10 +101,10 @@ def grid(rs=None):
 
 
 def rule_for(rs, ax):
-    b = rs["boundary"][ax] if isinstance(rs["boundary"], dict) else rs["boundary"]
+    b = rs["boundary"].get(ax) if isinstance(rs["boundary"], dict) else rs["boundary"]
     f = rs["fill_value"]
-    f = f[ax] if isinstance(f, dict) else f
-    return b, (0.0 if f is None else float(f))
+    f = f.get(ax) if isinstance(f, dict) else f
+    return (GRID_RULE[0] if b is None else b), (GRID_RULE[1] if f is None else float(f))
 
 
 def make_trimmer(sig, binding, out_lengths, record):
@@ -214,10 +219,15 @@ def call_route(route, g, func, sig, binding, das, bw_dummy, rs, pad_before=True)
         guf = as_grid_ufunc(signature=text, boundary_width=bw, **kw, **extra)(func)
         return guf(g, *das, axis=axis)
     if route == "decorator-call-overrides":
+        partial = any(isinstance(v, dict) and set(v) != {"X", "Y"} for v in kw.values())
+        if partial:
+            # a partial call-time mapping would let the bound decoy show through for the axes it omits
+            guf = as_grid_ufunc(signature=text, boundary_width=bw, **extra)(func)
+            return guf(g, *das, axis=axis, **kw)
         decoy = dict(boundary="fill" if kw.get("boundary") != "fill" else "extend", fill_value=99.0)
         guf = as_grid_ufunc(signature=text, boundary_width=bw, **decoy, **extra)(func)
         call_kw = dict(kw)
-        call_kw.setdefault("fill_value", 0.0)
+        call_kw.setdefault("fill_value", GRID_RULE[1])
         return guf(g, *das, axis=axis, **call_kw)
     if route == "annotated":
         ins, outs = sig
